@@ -200,6 +200,8 @@ Example module_globals_as_modelled : c09_module_globals = [
 ].
 Proof. reflexivity. Qed.
 
+Definition globals_as_modelled := module_globals_as_modelled.
+
 (* bare statements executed at import: the five registrations, in this order (= registered_actions), and two version probes *)
 Example import_time_calls_as_modelled : c09_import_time_calls = [
   ("cut_finding.cutting_actions", "disjoint_subcircuit_actions.define_action(ActionApplyGate())");
@@ -236,7 +238,7 @@ Proof. reflexivity. Qed.
    mutator method on a global, or assigns an attribute/item THROUGH A PARAMETER (possible alias of a global).
    - the three search_space_funcs.* assignments are greedy_writes (Model/Process.v);
    - _register_qpdbasis_from_instruction.g runs only inside the decorators, i.e. at import time;
-   - all other PARAM-WRITEs go through parameters whose classes have no module-level instance (fact c09_registry_classes):
+   - all other PARAM-WRITEs / PARAM-CALLs go through parameters whose classes have no module-level instance (fact c09_registry_classes):
      QuantumCircuit.data, local dicts/lists, DisjointSubcircuitsState, CutOptimizationFuncArgs (one per CutOptimization). *)
 Example global_writes_as_modelled : c09_global_writes = [
   ("cut_finding.cco_utils:greedy_best_first_search", "PARAM-WRITE-assign search_space_funcs.cost_func := cast(Callable, search_space_funcs.cost_func)");
@@ -251,6 +253,7 @@ Example global_writes_as_modelled : c09_global_writes = [
   ("cutting_experiments:_consolidate_resets", "PARAM-WRITE-del circuit.data[i]");
   ("cutting_experiments:_remove_final_resets", "PARAM-WRITE-del circuit.data[i]");
   ("cutting_experiments:_remove_resets_in_zero_state", "PARAM-WRITE-del circuit.data[i]");
+  ("qpd.decompose:_decompose_qpd_instructions", "PARAM-CALL circuit.data.insert");
   ("qpd.decompose:_decompose_qpd_instructions", "PARAM-WRITE-assign circuit.data[i + data_id_offset] := inst1");
   ("qpd.decompose:_decompose_qpd_instructions", "PARAM-WRITE-assign circuit.data[i + data_id_offset] := tmp_data[0]");
   ("qpd.decompose:_decompose_qpd_instructions", "PARAM-WRITE-del circuit.data[i + data_id_offset]");
@@ -262,6 +265,7 @@ Example global_writes_as_modelled : c09_global_writes = [
   ("qpd.weights:_populate_samples", "PARAM-WRITE-assign random_samples[running_state + outcome] := count");
   ("utils.transforms:_combine_barriers", "PARAM-WRITE-assign circuit.data[barrier_indices[0]] := new_barrier");
   ("utils.transforms:_combine_barriers", "PARAM-WRITE-del circuit.data[inst - shift]");
+  ("utils.transforms:_split_barriers", "PARAM-CALL circuit.data.insert");
   ("utils.transforms:_split_barriers", "PARAM-WRITE-assign circuit.data[i] := CircuitInstruction(Barrier(1, label=barrier_uuid), qubits=[inst.qubits")
 ].
 Proof. reflexivity. Qed.
@@ -399,10 +403,11 @@ Theorem c09_facts_greedy_writes :
      "PARAM-WRITE-assign search_space_funcs.next_state_func := cast(Callable, search_space_funcs.next_state_func)") ].
 Proof. reflexivity. Qed.
 
-(* no direct write to a module global outside import time, no global/nonlocal declaration, no mutator call on a global:
-   everything that is not a write through a parameter is the decorator body that fills the decomposition registry *)
+(* no direct write to a module global outside import time, no global/nonlocal declaration, no mutator call on a global, no
+   write or mutator call through a local that (transitively) aliases a global: everything that is not a write or mutator
+   call through a parameter is the decorator body that fills the decomposition registry *)
 Theorem c09_facts_no_direct_global_write :
-  filter (fun p => negb (String.prefix "PARAM-WRITE" (snd p))) c09_global_writes =
+  filter (fun p => negb (String.prefix "PARAM-" (snd p))) c09_global_writes =
   [ ("qpd.decompositions:_register_qpdbasis_from_instruction.g", "WRITE-assign _qpdbasis_from_instruction_funcs[name] := f") ].
 Proof. reflexivity. Qed.
 
